@@ -25,3 +25,25 @@ prop(
     modelled="shape of the table lookups, offset-history step, sequence-count writer/parser, header parsers/writers are hand-written mirrors of the Rust; every table row, range arm, constant and guard operator is extracted from the source text on every run",
     assumptions=["RFC 8878 tables typed by hand into Zstd/Spec/Tables.lean are a faithful copy of the RFC"],
 )
+
+prop(
+    "C17",
+    level_text="Theorems for every value of the quantifier (no bound): for EVERY hash function of the suffix store (the hash is a parameter of the model), for EVERY finite history of Matcher-trait calls on a driver created with any (slice_size, max_slices) — reset, get_next_space, commit_space of any vector, start_matching, skip_matching, in any order that does not panic — the sequences reported for a block tile it, every match is true at its distance in the retained window, distance <= advertised window, <= retained bytes, >= 1, match_len >= MIN_MATCH_LEN (extracted), executing the sequences decoder-style reproduces the block; base-offset / window-size / suffix-store invariants hold in every reachable state; no panic and termination under the documented call order for every hash that stays inside the slot array (proved for the code's hash). The hand-written model is tied to the code by running the real MatchGeneratorDriver (hook constructor, public Matcher trait) and the model on the same operation sequences (exhaustive over 2-3 symbol alphabets on scaled-down windows, random, production size) and comparing every reported sequence, verif_stats and space contents; an implementation-only oracle re-checks the property's own words on the code's output.",
+    engines=[{"name": "matcher"}],
+    modelled="MatchGenerator (next_sequence, add_suffixes_till, skip_matching, add_data, reserve, reset), SuffixStore (get/insert-if-absent/key), MatchGeneratorDriver (pools, store selection, recycling) are hand-written mirrors of match_generator.rs; MIN_MATCH_LEN, SUFFIX_STORE_MIN_CAPACITY, the hash constants, the production constructor arguments and every comparison operator of next_sequence / reserve / commit_space are extracted from the source text on every run, and the shape of the statements the model mirrors (offset formula, slices, base-offset update, eviction, store clearing) is anchored by the extractor",
+    assumptions=[
+        "vec![x; n] has capacity exactly n and shrinking a Vec keeps its capacity (so a recycled slot vector keeps its length and get_next_space hands out vectors at their capacity)",
+        "usize arithmetic does not overflow for the sizes involved (max_slices * slice_size, idx + 1, next_power_of_two)",
+        "the #[cfg(debug_assertions)] concat_window shadow copy is not modelled; its debug_assert_eq! is theorem true_match",
+    ],
+)
+
+
+prop(
+    "C07",
+    level_text="Theorems for every history (no bound): every field of every state-carrying struct (FrameDecoderState, DecoderScratch, FSEScratch, HuffmanScratch, DecodeBuffer, FSETable, HuffmanTable, RingBuffer) is touched by its reset — the field lists and the sets of fields each reset assigns/clears are extracted from the source text on every run, so a forgotten field breaks a theorem; on the model, the state a successful reset leaves is a function of (source, dictionaries, limit) only, operations never change dictionaries or limit, hence after ANY history the next frame is decoded exactly as by a fresh decoder (reuse_eq_fresh). That each Rust clearing statement clears what the model says is tied by the reuse/hostile engines: hook state dump right after reset and full transcripts of probe frames that need a clean state, reused vs fresh.",
+    engines=[{"name": "reuse"}, {"name": "hostile"}],
+    also_reports=[],
+    modelled="Decoder.reset / resetCore mirror FrameDecoder::reset, FrameDecoderState::{new,reset}; the per-field effect of the reset statements is not modelled individually — it is covered by the extracted field-coverage theorems plus the state-dump correspondence",
+    assumptions=["Vec::clear / Option = None / XxHash64::with_seed(0) do what their names say", "ring-buffer capacity and positions are unobservable through the byte-queue interface (C04)"],
+)
